@@ -113,6 +113,14 @@ def gen_bad_op(rng, ids, state_paths):
     return ["exclude", [k], rng.random() < 0.5]
 
 
+SEPS = [".", ".", ".", ".", "::", "b", "a.", ".b", "b.c", ""]
+
+
+def gen_sep(rng):
+    """mostly ".", sometimes a longer separator, one that is itself a key of the universe, or the empty string"""
+    return rng.choice(SEPS)
+
+
 def gen_op(rng, ids, state_paths):
     """state_paths: list of paths (leaves and nodes) currently in the oracle state — lets ops hit existing entries"""
     def path(p_exist=0.6):
@@ -159,9 +167,9 @@ def gen_op(rng, ids, state_paths):
         n = rng.randint(0, 3)
         return ["exclude", [sp(path(0.7)) for _ in range(n)], rng.random() < 0.5]
     if r < 0.885:
-        return ["flatten", ".", rng.random() < 0.5]
+        return ["flatten", gen_sep(rng), rng.random() < 0.5]
     if r < 0.93:
-        return ["unflatten", ".", rng.random() < 0.5]
+        return ["unflatten", gen_sep(rng), rng.random() < 0.5]
     if r < 0.96:
         # split_keys(inplace=True) pops the keys in *set* order (hash order): keys that are prefixes of one
         # another make the outcome depend on PYTHONHASHSEED, so the generator keeps the keys unrelated
@@ -578,6 +586,8 @@ def apply_oracle(d, op):
         elif kind == "unflatten":
             sep = op[1]
             R["atomic"] = not op[2]
+            if sep == "" and new:
+                return err(atomic=True)        # "".split("") is a ValueError for str as well
             for k in list(new.keys()):
                 if sep in k:
                     p = tuple(k.split(sep))
